@@ -360,7 +360,7 @@ def job_reach(n):
                functions=["gearpy.motor_control.rules.reach_angular_position.ReachAngularPosition.apply",
                           "gearpy.motor_control.rules.utils._compute_static_error",
                           "gearpy.sensors.absolute_rotary_encoder.AbsoluteRotaryEncoder.get_value"],
-               expect_covers=("applicable", "not-applicable"), meta=dict(family="rule", n=n))
+               expect_covers=("applicable", "not-applicable"), meta=dict(family="rule", n=n, thorough_only=(n > 5)))
 
 
 def job_start_limit_current():
@@ -478,7 +478,7 @@ def job_start_proportional(n, load_recorded):
     return Job(f"control.StartProportionalToAngularPosition.apply[n={n},{tag}]", body, ("C15", "C14"),
                functions=["gearpy.motor_control.rules.start_proportional_to_angular_position.StartProportionalToAngularPosition.apply",
                           "gearpy.motor_control.rules.utils._compute_pwm_min"],
-               expect_covers=("applicable", "not-applicable"), meta=dict(family="rule", n=n))
+               expect_covers=("applicable", "not-applicable"), meta=dict(family="rule", n=n, thorough_only=(n > 4)))
 
 
 # =====================================================================================================
@@ -540,7 +540,7 @@ def job_stop(sensor, opname):
 def all_jobs(exact_tables=None):
     jobs = [job_apply_rules(m) for m in range(0, 7)]
     jobs += [job_add_rule(), job_timer(), job_constant_pwm(), job_start_limit_current()]
-    jobs += [job_reach(n) for n in (2, 3, 4)]
-    jobs += [job_start_proportional(n, lr) for n in (2, 3) for lr in (False, True)]
+    jobs += [job_reach(n) for n in (2, 3, 4, 5, 6, 7, 8)]                      # n > 5: thorough tier only
+    jobs += [job_start_proportional(n, lr) for n in (2, 3, 4, 5, 6) for lr in (False, True)]   # n > 4: thorough tier only
     jobs += [job_stop(sn, op) for sn in SENSORS for op in OPS]
     return jobs
